@@ -20,6 +20,9 @@ type Ctx struct {
 	Seed int64
 	// premises already run in this check (they are shared by several clauses)
 	statelessDone, statelessCompDone bool
+	thresholdOnly                    bool // RunData enumerates only the size-threshold shapes
+	probeResults                     bool // RunData feeds results to Scale / Sum probes
+	nonFinite                        bool // labelled instances with infinite elements are included by RunData
 }
 
 func (c *Ctx) Bounds() engine.Bounds {
@@ -34,6 +37,7 @@ type OpFilter struct {
 	Methods []string                          // public operations to instantiate ("" = all)
 	Keep    func(rule, construct string) bool // which obligations count for this property
 	KeepF   func(f engine.Finding) bool       // optional finer filter on findings
+	Only    func(f engine.Finding) bool       // optional: findings that fail it are dropped even if Keep accepts their rule
 }
 
 func hasPrefixAny(s string, ps ...string) bool {
@@ -97,6 +101,9 @@ func fileOps(c *Ctx, e *engine.OpEngine, f OpFilter) {
 		keep := f.Keep == nil || f.Keep(fd.Rule, fd.Construct)
 		if f.KeepF != nil && f.KeepF(fd) {
 			keep = true
+		}
+		if f.Only != nil && !f.Only(fd) {
+			keep = false
 		}
 		if fd.Undecided && fd.Rule == "interp" {
 			keep = true // code outside the analysed fragment is never silently skipped
